@@ -1,6 +1,6 @@
 """Behaviour-preserving refactorings ("twins") from independent sub-agents.
 
-  python tools/twins.py import            copy deliverables from /tmp/seedwork/tw_*/_twin into /verif/twins/
+  python tools/twins.py import            copy deliverables from /tmp/seedwork/tw_*/_twin and tw2_*/_twin into /verif/twins/
   python tools/twins.py check [ids...]    run the property's check against the refactored tree; it must stay silent
 
 A twin that makes a check speak is a false alarm of the check (or the refactor is
@@ -26,22 +26,23 @@ WORK = '/tmp/twincheck'
 def do_import():
     src_root = '/tmp/seedwork'
     for d in sorted(os.listdir(src_root)):
-        if not d.startswith('tw_') or not os.path.isdir(os.path.join(src_root, d, '_twin')):
+        if not d.startswith(('tw_', 'tw2_')) or not os.path.isdir(os.path.join(src_root, d, '_twin')):
             continue
-        pid = d[3:]
+        pid = d.split('_', 1)[1]
+        offset = 3 if d.startswith('tw2_') else 0  # second round: ids t4..t6
         td = os.path.join(src_root, d, '_twin')
         for k in (1, 2, 3, 4):
             diff = os.path.join(td, f'refactor{k}.diff')
             note = os.path.join(td, f'note{k}.txt')
             if not os.path.exists(diff) or not os.path.exists(note):
                 continue
-            tid = f'{pid}-t{k}'
+            tid = f'{pid}-t{k + offset}'
             dst = os.path.join(TWINS, tid)
             if os.path.exists(os.path.join(dst, 'meta.json')):
                 continue
             os.makedirs(dst, exist_ok=True)
             shutil.copy(diff, os.path.join(dst, 'patch.diff'))
-            meta = {'id': tid, 'property': pid, 'source': 'independent sub-agent asked for a behaviour-preserving refactoring',
+            meta = {'id': tid, 'property': pid, 'source': 'independent sub-agent asked for a behaviour-preserving refactoring' + (' (second round: larger structural edits)' if offset else ''),
                     'agent_note': open(note, encoding='utf-8').read()}
             json.dump(meta, open(os.path.join(dst, 'meta.json'), 'w'), indent=1)
             print('imported', tid)
